@@ -10,6 +10,7 @@ got/want checks over trailing outputs, the exception ladder, break-on-failure, t
 import os
 import traceback
 import warnings
+import zlib
 
 from ..codec import enc, enc_list, enc_nats
 from ..gen import doctests as gd
@@ -305,6 +306,46 @@ def check_primitives(sc, o):
     return why
 
 
+def rerun_check(sc, o, times=4):
+    """the same DocTest OBJECT run again (and again): every run must give the verdict, failure kind and TRACE of the
+    first one (nothing may accumulate on the object between runs: skipped parts, unmatched output, logged output)"""
+    why = []
+    if o.get('parse') != 'ok' or o.get('ending') not in ('returned',) and not str(o.get('ending')).startswith('raised'):
+        return why
+    ex = o['ex']
+    on_error = sc['run'].get('on_error', 'return')
+    first = (o['pfs'], o['kind'], o['T'])
+    for i in range(times):
+        ns = NS()
+        ns, T = gd.make_namespace(ns)
+        ex.global_namespace = ns
+        try:
+            with warnings.catch_warnings(record=True):
+                warnings.simplefilter('always')
+                summary = ex.run(on_error=on_error, verbose=0)
+        except BaseException as e:   # noqa
+            summary = None
+            raised = e
+        if summary is not None:
+            pfs = '%d%d%d' % (summary['passed'], summary['failed'], summary['skipped'])
+        else:
+            n = len(ex._parts)
+            sk = len(ex._skipped_parts) == n
+            fl = ex.exc_info is not None
+            pfs = '%d%d%d' % ((not fl and not sk), fl, sk)
+            if type(raised).__name__ == 'Skipped' and ex.exc_info is None:
+                pfs = '001'
+        if (pfs, list(T)) != (first[0], first[2]):
+            why.append('run number %d of the SAME DocTest object: passed/failed/skipped=%s TRACE=%r, the first run gave %s %r' % (
+                i + 2, pfs, list(T), first[0], first[2]))
+            break
+        if sorted(ex.logged_stdout.keys()) != sorted(o['logged_stdout'].keys()) or \
+                any((ex.logged_stdout[k] or '') != (o['logged_stdout'][k] or '') for k in ex.logged_stdout):
+            why.append('run number %d of the same object logged other output per part than the first run' % (i + 2))
+            break
+    return why
+
+
 def run_scenarios(scenarios):
     """runs in a worker: returns dict(n, nontrivial(set of hashes), tags, disagreements, expfails, samples)"""
     from .. import driver
@@ -336,6 +377,8 @@ def run_scenarios(scenarios):
             out['tags']['unparsed'] = out['tags'].get('unparsed', 0) + 1
         if 'expect' in sc:
             why = check_expectation(sc, o)
+            if not why and (zlib.crc32(sc['text'].encode('utf8', 'replace')) % 3 == 0 or sc.get('rerun')):
+                why = rerun_check(sc, o)
             if why:
                 out['exp'].append((inp, sc['expect'], {k: o.get(k) for k in ('pfs', 'kind', 'T', 'ending', 'exc_type', 'failidx')}, '; '.join(why)))
         if len(out['samples']) < 2:
